@@ -21,6 +21,7 @@ UNITS = {
     "drivers": {"template": "contracts/drivers.vrs", "rlimit": 60},
     "merkle_tree": {"template": "contracts/merkle_tree.vrs", "rlimit": 60},
     "curry": {"template": "contracts/curry.vrs", "rlimit": 60},
+    "perm": {"template": "contracts/perm.vrs", "rlimit": 200},
     "mempool_visitor": {"template": "contracts/mempool_visitor.vrs", "rlimit": 60},
     "generator_len": {"template": "contracts/generator_len.vrs", "rlimit": 30},
     "aggsig": {"template": "contracts/aggsig.vrs", "rlimit": 60},
@@ -125,12 +126,12 @@ PROPS["C01"] = {
 PROPS["C06"] = {
     "level": "proof",
     "technique": "Verus spec-level lemmas over the proved-equal rule spec - per condition (parse_args_spec) and per condition list (run_list, by induction) acceptance under stricter flags implies identical acceptance under laxer flags - on top of the contracts that tie parse_args / parse_conditions / validate_conditions to those specs; native evaluation of ground relations between runs (strict vs lenient, permutations) of the real parser",
-    "level_text": "Deductive proof: for every tree, opcode and pair of flag words that differ only in strictness flags, strict acceptance of a condition implies lenient acceptance with the identical parsed condition (lemma_strict_only_restricts), and the same for a whole condition list with the identical summary (lemma_run_list_strict_only_restricts, induction over the list); parse_args and parse_conditions are proved equal to those specs (units conditions_parse, conditions_effects), and the deferred checks are proved to be a function of order-insensitive sets, sums and extrema (unit validate_conds, iff). Order independence itself is not a machine-checked lemma: it is decided on 378 ground relations (reversed / rotated / interleaved condition orders, swapped spends, each strictness subset x fork flags) over fixed bundles with boundary multiplicities (127/128/129 identical messages, 1023/1024/1025 announcements, 5999/6000/6001 spends).",
-    "level_note": "Inherits C01's assumptions. The spec's aggregates are maxima, minima, sums and set insertions, which is why order cannot matter; that commutation argument over the spec (36 x 36 condition kinds) exceeded the solver's resource limit and is not claimed.",
-    "components": [V("conditions_parse"), V("conditions_effects"), V("validate_conds"), N("native_relations_ground", "relations_ground", thorough_task="relations_ground:thorough"), V("drivers")],
+    "level_text": "Deductive proof: for every tree, opcode and pair of flag words that differ only in strictness flags, strict acceptance of a condition implies lenient acceptance with the identical parsed condition (lemma_strict_only_restricts), and the same for a whole condition list with the identical summary (lemma_run_list_strict_only_restricts, induction over the list); parse_args and parse_conditions are proved equal to those specs (units conditions_parse, conditions_effects), and the deferred checks are proved to be a function of order-insensitive sets, sums and extrema (unit validate_conds, iff). Order independence of the conditions of a spend is a machine-checked lemma over the same spec (unit perm: every pair of per-condition effects commutes - 17 effect kinds, proved kind by kind - and therefore run_list is invariant under swapping two adjacent conditions, lemma_adjacent_swap; every permutation is a product of adjacent transpositions); it is additionally decided on ground relations (reversed / rotated / interleaved condition orders, swapped spends, each strictness subset x fork flags) over fixed bundles with boundary multiplicities (127/128/129 identical messages, 1023/1024/1025 announcements, 5999/6000/6001 spends).",
+    "level_note": "Inherits C01's assumptions. The contract tying parse_conditions to the spec is one-directional (acceptance implies the summary equals the spec), so from the lemma one gets: if both orders are accepted, their summaries are identical; that the reordered list is accepted at all is decided on the ground relations. Order of spends within a bundle (cross-spend sets and sums in validate_conditions) is argued from the iff-contract of validate_conditions over order-insensitive sets and decided on ground relations.",
+    "components": [V("conditions_parse"), V("conditions_effects"), V("validate_conds"), N("native_relations_ground", "relations_ground", thorough_task="relations_ground:thorough"), V("drivers"), V("perm")],
     "assumptions": ["inherits C01 (conditions_parse / conditions_effects units)"],
     "not_covered": [
-        "permutation invariance as a machine-checked lemma over the summary spec (only ground relations)",
+        "acceptance of the reordered condition list (the parse_conditions contract is one-directional); permutations of whole spends: ground relations only",
         "LIMIT_SPENDS exit of parse_spends / run_spendbundle and the bundle-level lifting across spends (ground relations only)",
     ],
 }
